@@ -34,7 +34,7 @@ Qed.
 
 (** ** D10: the code at the pinned commit *)
 Definition d10_dec : N -> option N := fun p => Some p.
-Definition d10_cfg (fx : bool) : cfg := Cfg fx 7 true.
+Definition d10_cfg (fx : bool) : cfg := Cfg fx 7 true true.
 Definition d10_stream : list notif := [Notif 1 7 1 false 0; Notif 2 7 2 false 0].
 (** two replies; the caller reads the first, the second fills the buffer, the caller cancels *)
 Definition d10_sched : list label := [LRecv; LSend; CRead; LRecv; LSend; ECancel; LCtx].
